@@ -315,6 +315,28 @@ pub fn run(args: &Args, rec: &mut Recorder) {
             api_built_case(rng, rec, k);
             return None;
         }
+        if case % 20 == 7 {
+            // IF_DATA that is interpreted through the A2ML block of the file (generated definition,
+            // conforming instances with comments inside)
+            let (text, _flat, _n) = crate::c18::gen_conforming_document(rng);
+            rec.eval();
+            rec.nontrivial(text.as_bytes());
+            rec.bump("entry.a2ml_interpreted_if_data");
+            match load_str(&text, false) {
+                Err((sig, detail)) => rec.violation(&sig, &detail, witness_text("G-a2ml/string", &text, "")),
+                Ok(Err(e)) => rec.violation(
+                    &format!("document with A2ML-conforming IF_DATA is rejected: {}", crate::gram::err_class(&e)),
+                    &e.to_string(),
+                    witness_text("G-a2ml/string", &text, ""),
+                ),
+                Ok(Ok((m, _))) => {
+                    if let Err((sig, detail)) = cycle_check(&m, k, &text) {
+                        rec.violation(&format!("{sig} [A2ML-interpreted IF_DATA]"), &detail, witness_text("G-a2ml/string", &text, ""));
+                    }
+                }
+            }
+            return None;
+        }
         let cfg = gen_cfg_wide(rng, args.thorough);
         let mut gen = DocGen::new(&g, cfg);
         let doc = gen.gen_doc(rng);
@@ -466,6 +488,7 @@ pub fn run(args: &Args, rec: &mut Recorder) {
     rec.floor("accepted", 10);
     rec.floor("entry.file", 1);
     rec.floor("entry.fragment", 1);
+    rec.floor("entry.a2ml_interpreted_if_data", 5);
     rec.floor("api_built_models", 1);
     // every element kind of the reference grammar must have occurred
     for e in &g.elements {
